@@ -29,18 +29,35 @@ import (
 	"cvssmc/internal/ev"
 	"cvssmc/internal/scen"
 
-	"github.com/goark/go-cvss/cvsserr"
-	v2 "github.com/goark/go-cvss/v2/metric"
-	v3 "github.com/goark/go-cvss/v3/metric"
-	"github.com/goark/go-cvss/v3/report"
-	"github.com/goark/go-cvss/v3/report/names"
-	v3version "github.com/goark/go-cvss/v3/version"
+	_ "github.com/goark/go-cvss/cvsserr"
+	_ "github.com/goark/go-cvss/v2/metric"
+	_ "github.com/goark/go-cvss/v3/metric"
+	_ "github.com/goark/go-cvss/v3/report"
+	_ "github.com/goark/go-cvss/v3/report/names"
+	_ "github.com/goark/go-cvss/v3/version"
+	"github.com/goark/go-cvss/verifreg"
 	sched "github.com/goark/go-cvss/verifsched"
 )
 
+// globalSetsSorted: the package-level variables of every library package linked into this binary
+// (registered by the generated verif_globals_gen.go files), in package-path order.
+func globalSetsSorted() []map[string]any {
+	all := verifreg.All()
+	ps := make([]string, 0, len(all))
+	for p := range all {
+		ps = append(ps, p)
+	}
+	sort.Strings(ps)
+	sets := make([]map[string]any, 0, len(ps))
+	for _, p := range ps {
+		sets = append(sets, all[p])
+	}
+	return sets
+}
+
 func globalsHash() uint64 {
 	h := fnv.New64a()
-	sets := []map[string]any{cvsserr.VerifGlobals(), v2.VerifGlobals(), v3.VerifGlobals(), report.VerifGlobals(), names.VerifGlobals(), v3version.VerifGlobals()}
+	sets := globalSetsSorted()
 	for _, m := range sets {
 		ks := make([]string, 0, len(m))
 		for k := range m {
@@ -94,7 +111,7 @@ func deepCopy(v reflect.Value) reflect.Value {
 }
 
 func snapshotGlobals() {
-	sets := []map[string]any{cvsserr.VerifGlobals(), v2.VerifGlobals(), v3.VerifGlobals(), report.VerifGlobals(), names.VerifGlobals(), v3version.VerifGlobals()}
+	sets := globalSetsSorted()
 	for _, m := range sets {
 		ks := make([]string, 0, len(m))
 		for k := range m {
@@ -829,5 +846,11 @@ func main() {
 		worker(os.Args[2], i, n)
 	case "replay":
 		os.Exit(replay(os.Args[2]))
+	case "maporder": // maporder <tier> <outfile>
+		os.Exit(moParent(os.Args[2], os.Args[3]))
+	case "maporder-worker":
+		i, _ := strconv.Atoi(os.Args[3])
+		n, _ := strconv.Atoi(os.Args[4])
+		moWorker(os.Args[2], i, n)
 	}
 }
